@@ -476,6 +476,8 @@ class Interp:
         obj = self.simp(obj)
         if isinstance(obj, Ite):
             return ite(obj.c, self.get_attr(obj.a, name, node), self.get_attr(obj.b, name, node))
+        if isinstance(obj, Op) and obj.op == "structobj" and name in ("size", "format"):
+            return Const(self.struct_layout(obj.args[0].v)[1]) if name == "size" else obj.args[0]
         if isinstance(obj, Ref):
             o = self.heap[obj.oid]
             if isinstance(o, Instance):
@@ -1165,6 +1167,14 @@ class _CallMixin:
             return self.call_value(f, args, kwargs, node)
         if isinstance(recv, Ext):
             return self.call_ext(recv.name + "." + name, args, kwargs, node)
+        if isinstance(recv, Op) and recv.op == "structobj":
+            f = recv.args[0].v
+            if name == "unpack" and len(args) == 1:
+                return self.struct_unpack(f, args[0], Const(0), node)
+            if name == "unpack_from" and args:
+                start = args[1] if len(args) > 1 else kwargs.get("offset", Const(0))
+                return self.struct_unpack(f, args[0], start, node, exact=False)
+            raise AnalysisError("struct.Struct.%s is not modelled (line %s)" % (name, getattr(node, "lineno", "?")))
         if isinstance(recv, Op) and recv.op == "superobj":
             cinfo = self.prog.cls(recv.args[1].v)
             for b in cinfo.bases:
@@ -2496,6 +2506,13 @@ class _ExtMixin:
                         total = add(total, Op("b2i", it[2]))
                 return pad_norm(total)
         if isinstance(v, Op) and v.op == "getslice" and len(v.args) == 3 and v.args[1] != NONE and v.args[2] != NONE:
+            # a slice that is known to lie inside its source (a successful range check on this path) has its nominal width
+            base, lo, hi = v.args
+            inside = compare("le", hi, self.x_len([base], {}, n))
+            if nonneg(lo) and (inside == TRUE or inside in set(self.cur_guard_list())):
+                w = sub(hi, lo)
+                if nonneg(w) or is_int(w):
+                    return w
             return Op("len", v)
         return Op("len", v)
 
@@ -2851,8 +2868,87 @@ class _ExtMixin:
             return self.alloc(ListObj(self.born_now(), [it for l in lists for it in l.items], "list"))
         return None
 
+    def x_struct_Struct(self, a, k, n):
+        if len(a) == 1 and is_const(a[0], str) and self.struct_layout(a[0].v) is not None:
+            return Op("structobj", a[0])
+        return None
+
+    def x_struct_calcsize(self, a, k, n):
+        if len(a) == 1 and is_const(a[0], str):
+            lay = self.struct_layout(a[0].v)
+            if lay is not None:
+                return Const(lay[1])
+        return None
+
+    def struct_layout(self, f):
+        """(byte order, total size, [(offset, width, signed) | (offset, n, 'bytes')]) for the format codes modelled"""
+        order = "big"
+        if f[:1] in "><!=@":
+            if f[0] in "=@":
+                return None
+            order = "little" if f[0] == "<" else "big"
+            f = f[1:]
+        sizes = {"B": (1, False), "b": (1, True), "H": (2, False), "h": (2, True), "I": (4, False), "i": (4, True),
+                 "L": (4, False), "l": (4, True), "Q": (8, False), "q": (8, True)}
+        fields = []
+        num = ""
+        off = 0
+        for ch in f:
+            if ch.isdigit():
+                num += ch
+                continue
+            cnt = int(num) if num else 1
+            num = ""
+            if ch in sizes:
+                for _ in range(cnt):
+                    fields.append((off, sizes[ch][0], sizes[ch][1]))
+                    off += sizes[ch][0]
+            elif ch == "x":
+                off += cnt
+            elif ch == "s":
+                fields.append((off, cnt, "bytes"))
+                off += cnt
+            elif ch == "c":
+                for _ in range(cnt):
+                    fields.append((off, 1, "bytes"))
+                    off += 1
+            elif ch == " ":
+                continue
+            else:
+                return None
+        if num:
+            return None
+        return order, off, fields
+
+    def struct_unpack(self, fmtstr, data, start, n, exact=True):
+        lay = self.struct_layout(fmtstr)
+        if lay is None:
+            return None
+        order, total, fields = lay
+        ln = self.x_len([data], {}, n)
+        bad = compare("ne", ln, add(start, Const(total))) if exact else compare("lt", ln, add(start, Const(total)))
+        if bad != FALSE:
+            self.event("raise", (Op("call:struct.error"),), n)
+            self.note_raise(and_(self.local_guard(state=True), bad))
+        vals = []
+        for off, w, kind in fields:
+            sl = self.getslice(data, add(start, Const(off)), add(start, Const(off + w)), NONE, n)
+            vals.append(Op("m:tobytes", sl) if kind == "bytes" and False else (sl if kind == "bytes" else
+                        Op("int_from_bytes", sl, Const(order), Const(kind))))
+        return self.mk_list(vals, "tuple")
+
+    def x_struct_unpack_from(self, a, k, n):
+        if len(a) >= 2 and is_const(a[0], str):
+            start = a[2] if len(a) > 2 else k.get("offset", Const(0))
+            return self.struct_unpack(a[0].v, a[1], start, n, exact=False)
+        return None
+
     def x_struct_unpack(self, a, k, n):
         """struct.unpack with a constant big/little-endian format of fixed-size integer codes = one integer field per code"""
+        if len(a) == 2 and is_const(a[0], str):
+            r = self.struct_unpack(a[0].v, a[1], Const(0), n)
+            if r is not None:
+                return r
         if len(a) != 2 or not is_const(a[0], str):
             return None
         f = a[0].v
